@@ -12,12 +12,13 @@ Context {P St : Type} (pid : P -> Z) (isflag : P -> bool) (flag : P -> P)
 Hypothesis flag_pid : forall p, pid (flag p) = pid p.
 Hypothesis flag_set : forall p, isflag (flag p) = true.
 Hypothesis res_frame : forall s ps e s' ps' o, res s ps e = (s', ps', o) -> view pid isflag ps' = view pid isflag ps.
-Variables (tree keep : bool) (nact : Z) (ps : list P) (pend : list entry) (s s' : St) (psf : list P) (naf : Z) (log : list event).
-Hypothesis not_both : tree && keep = false.
+(* hyb: the integrator is MERCURIUS or TRACE (both the loop and reb_simulation_remove_particle then force keep_sorted) *)
+Variables (tree hyb keep : bool) (nact : Z) (ps : list P) (pend : list entry) (s s' : St) (psf : list P) (naf : Z) (log : list event).
+Hypothesis not_both : tree && (keep || hyb) = false.
 Hypothesis ids_unique : NoDup (idsV (view pid isflag ps)).
 Hypothesis pend_valid : Forall (live_entry (view pid isflag ps)) pend.
-Hypothesis run : resolve_loop pid flag res tree keep (fun e => e) nact s ps pend = (s', psf, naf, log).
-Let run_na := loop_is_na pid flag res tree keep _ _ _ _ _ _ _ _ _ run.
+Hypothesis run : resolve_loop pid flag res tree hyb keep (fun e => e) nact s ps pend = (s', psf, naf, log).
+Let run_na := loop_is_na pid flag res tree hyb keep _ _ _ _ _ _ _ _ _ run.
 
 (* the index juggling (tombstones, shift-down / moved-last remapping, both outcome bits, deferred tree removal)
    makes exactly the calls of the identity-level loop: walk the identity pairs in order, skip a pair iff one of its
@@ -221,9 +222,9 @@ Print Assumptions C13_max_radius_merge_preserved.
 (* ---- N_active: the bookkeeping of reb_simulation_remove_particle (decrement; clamp in the unsorted branch) never
    decides which particle sits where (the loop theorems above hold for every N_active), and keeps N_active <= N *)
 Theorem C13_nactive_independent : forall (P St : Type) (pid : P -> Z) (flag : P -> P) (res : St -> list P -> entry -> St * list P * Z)
-    tree keep pend fx nact s ps s' psf naf log,
-  resolve_loop pid flag res tree keep fx nact s ps pend = (s', psf, naf, log) ->
-  resolve_loop_na pid flag res tree keep fx s ps pend = (s', psf, log).
+    tree hyb keep pend fx nact s ps s' psf naf log,
+  resolve_loop pid flag res tree hyb keep fx nact s ps pend = (s', psf, naf, log) ->
+  resolve_loop_na pid flag res tree (keep || hyb) fx s ps pend = (s', psf, log).
 Proof. exact @loop_is_na. Qed.
 Theorem C13_nactive_bounded : forall (P : Type) (flag : P -> P) tree keep nact ps k ps' nact',
   remove_particle flag tree keep nact ps k = (ps', nact', true) -> (nact <= zlen ps)%Z -> (nact' <= zlen ps')%Z.
@@ -232,8 +233,8 @@ Proof. exact @nact_le_N. Qed.
 Example C13_nactive_regression :
   let ids := [1000; 1001; 1002; 1003; 1004]%Z in
   let pend := [(1, 0, 13); (2, 3, 13)]%Z in
-  map ev_id (fst (fst (loop_ids false false 3 ids pend [1; 2]%Z))) = [(1001, 1000, 13, 1); (1002, 1003, 13, 2)]%Z /\
-  snd (loop_ids false false 3 ids pend [1; 2]%Z) = 3%Z.
+  map ev_id (fst (fst (loop_ids false false false 3 ids pend [1; 2]%Z))) = [(1001, 1000, 13, 1); (1002, 1003, 13, 2)]%Z /\
+  snd (loop_ids false false false 3 ids pend [1; 2]%Z) = 3%Z.
 Proof. split; vm_compute; reflexivity. Qed.
 
 (* ================= round 3 ================= *)
@@ -404,23 +405,70 @@ Theorem C13_dcrit_refreshed_at_every_site : forall s, In s dcrit_sites -> snd s 
 Proof. exact dcrit_site_refreshed. Qed.
 Print Assumptions C13_dcrit_refreshed_at_every_site.
 
+(* ================= merge / hard sphere without the hypothesis m_i + m_j <> 0: two massless particles are covered ========== *)
+(* mass_ok a b := pm a + pm b <> 0 \/ (pm a = 0 /\ pm b = 0) *)
+Theorem C13_merge_conserves_gen : forall t cb ps p1 p2 a b,
+  zth ps p1 = Some a -> zth ps p2 = Some b -> plc a <> t -> plc b <> t -> mass_ok a b ->
+  exists q,
+    merge RNum t cb ps p1 p2 = (upd ps (Z.to_nat (keep_ix p1 p2)) q, (if (p2 <? p1)%Z then 1 else 2)%Z) /\
+    pm q = pm a + pm b /\ mom q = add3 (mom a) (mom b) /\ mpos q = add3 (mpos a) (mpos b) /\
+    pr q = cb /\ plc q = t /\ phash q = phash (if (p2 <? p1)%Z then b else a) /\
+    (pm a = 0 -> pm b = 0 ->
+       px q = (px a + px b) / 2 /\ py q = (py a + py b) / 2 /\ pz q = (pz a + pz b) / 2 /\
+       pvx q = (pvx a + pvx b) / 2 /\ pvy q = (pvy a + pvy b) / 2 /\ pvz q = (pvz a + pvz b) / 2).
+Proof. exact merge_conserves_gen. Qed.
+Print Assumptions C13_merge_conserves_gen.
+Theorem C13_merge_conserves_total_gen : forall (flag : particle R -> particle R) t cb ps p1 p2 a b keep nact,
+  zth ps p1 = Some a -> zth ps p2 = Some b -> p1 <> p2 -> plc a <> t -> plc b <> t -> mass_ok a b ->
+  exists ps' ps'' nact',
+    fst (merge RNum t cb ps p1 p2) = ps' /\
+    remove_particle flag false keep nact ps' (gone_ix p1 p2) = (ps'', nact', true) /\
+    S (length ps'') = length ps /\
+    Forall (fun f => tot f ps'' = tot f ps) conserved.
+Proof. exact merge_total_model_gen. Qed.
+(* separation and Newton's restitution law hold for EVERY pair of masses (the fractions p1pf + p2pf = 1 also when both are 1/2) *)
+Theorem C13_hardsphere_separating_any : forall t eps mcv st ct sp cp g p1 p2 q1 q2,
+  hardsphere RNum t eps mcv st ct sp cp g p1 p2 = Some (q1, q2) -> forall Rr,
+  0 <= Rr -> px p1 + gx g - px p2 = Rr * cp -> py p1 + gy g - py p2 = Rr * (sp * ct) ->
+  pz p1 + gz g - pz p2 = Rr * (sp * st) ->
+  ct * ct + st * st = 1 -> cp * cp + sp * sp = 1 -> 0 <= eps ->
+  0 <= (pvx q1 + gvx g - pvx q2) * (px p1 + gx g - px p2) + (pvy q1 + gvy g - pvy q2) * (py p1 + gy g - py p2)
+       + (pvz q1 + gvz g - pvz q2) * (pz p1 + gz g - pz p2).
+Proof. exact hs_separating_any. Qed.
+Theorem C13_hardsphere_restitution_any : forall t eps mcv st ct sp cp g p1 p2 q1 q2,
+  hardsphere RNum t eps mcv st ct sp cp g p1 p2 = Some (q1, q2) ->
+  mcv = 0 -> hs_vn st ct sp cp g p1 p2 <= 0 -> 0 <= 1 + eps ->
+  ct * ct + st * st = 1 -> cp * cp + sp * sp = 1 ->
+  hs_vn st ct sp cp g q1 q2 = - eps * hs_vn st ct sp cp g p1 p2.
+Proof. exact hs_restitution_any. Qed.
+Print Assumptions C13_hardsphere_restitution_any.
+(* two massless particles: opposite, equal velocity changes (finite); momentum and energy are zero before and after *)
+Theorem C13_hardsphere_massless : forall t eps mcv st ct sp cp g p1 p2 q1 q2,
+  hardsphere RNum t eps mcv st ct sp cp g p1 p2 = Some (q1, q2) -> pm p1 = 0 -> pm p2 = 0 ->
+  pvx q1 - pvx p1 = - (pvx q2 - pvx p2) /\ pvy q1 - pvy p1 = - (pvy q2 - pvy p2) /\ pvz q1 - pvz p1 = - (pvz q2 - pvz p2) /\
+  pvx q1 = pvx p1 + cp * hs_dvx2 RNum eps mcv p1 p2 (px p1 + gx g - px p2) (py p1 + gy g - py p2) (pz p1 + gz g - pz p2)
+                              (hs_vn st ct sp cp g p1 p2) / 2 /\
+  pm q1 = 0 /\ pm q2 = 0.
+Proof. exact hs_massless. Qed.
+
 (* ================= corners excluded by the hypotheses above: what the code does there (binary64 instance of the model) ===== *)
 From RV Require Import Common.FloatNum C13.Corners.
 From Coq Require Import PrimFloat.   (* last block of the file: shadows Reals.sqrt etc. from here on *)
-(* m_a + m_b = 0 (two test particles), excluded in C13_merge_conserves / C13_merge_conserves_total: the survivor becomes NaN *)
-Theorem C13_merge_massless_refuted :
+(* m_a + m_b = 0 with two massless (test) particles: the survivor sits at the midpoint with the mean velocity (binary64 witness;
+   over R: C13_merge_conserves_gen below) *)
+Theorem C13_merge_massless_midpoint :
   let '(ps', o) := merge FloatNum.FNum 1%float 0x1.999999999999ap-4%float
                          [tp 5%float 0x1.999999999999ap-4%float 1000; tp 0x1.499999999999ap+2%float (-0x1.999999999999ap-4)%float 1001] 0%Z 1%Z in
-  o = 2%Z /\ forallb (fun p : fp => PrimFloat.is_nan (px p) && PrimFloat.is_nan (pvx p)) (firstn 1 ps') = true.
-Proof. exact merge_massless_nan. Qed.
-(* m_1 + m_2 = 0, excluded in the C13_hardsphere_* theorems: both velocities become NaN *)
-Theorem C13_hardsphere_massless_refuted :
+  o = 2%Z /\ map (fun p : fp => (px p, pvx p, pm p)) (firstn 1 ps') = [(0x1.44ccccccccccdp+2, 0, 0)%float].
+Proof. exact merge_massless_midpoint. Qed.
+(* m_1 + m_2 = 0 in a hard-sphere bounce: the impulse is shared equally; at restitution 1 the velocities are exchanged *)
+Theorem C13_hardsphere_massless_exchange :
   match hardsphere FloatNum.FNum 1%float 1%float 0%float 0%float 1%float 0%float (-1)%float (mkV6 0 0 0 0 0 0)%float
                    (tp 5%float 0x1.999999999999ap-4%float 1000) (tp 0x1.499999999999ap+2%float (-0x1.999999999999ap-4)%float 1001) with
-  | Some (q1, q2) => PrimFloat.is_nan (pvx q1) && PrimFloat.is_nan (pvx q2)
-  | None => false
-  end = true.
-Proof. exact hardsphere_massless_nan. Qed.
+  | Some (q1, q2) => (pvx q1, pvx q2)
+  | None => (PrimFloat.nan, PrimFloat.nan)
+  end = (-0x1.999999999999ap-4, 0x1.999999999999ap-4)%float.
+Proof. exact hardsphere_massless_exchange. Qed.
 (* a NaN coordinate passes the pair test (both comparisons of the code are false for NaN) *)
 Theorem C13_direct_test_nan_passes :
   direct_test FloatNum.FNum (mkV6 PrimFloat.nan 0 0 0 0 0)%float 0%float (mkF 1000 1000 1000 0 0 0 1 0 0 7%Z)%float = true.
@@ -436,5 +484,17 @@ Theorem C13_smallest_N :
   search_direct FloatNum.FNum (gb_periodic FloatNum.FNum 1 1 1)%float 1 1 1 [] = [] /\
   search_direct FloatNum.FNum (gb_periodic FloatNum.FNum 1 1 1)%float 1 1 1 [tp 0%float 0%float 1%Z] = [] /\
   search_line FloatNum.FNum (gb_periodic FloatNum.FNum 1 1 1)%float 1 1 1 1%float [tp 0%float 0%float 1%Z] = [] /\
-  loop_ids false false (-1) [] [] [] = ([], [], (-1)%Z).
+  loop_ids false false false (-1) [] [] [] = ([], [], (-1)%Z).
 Proof. exact search_empty. Qed.
+
+(* ================= hybrid integrators: the renumbering rule of the loop must be the removal discipline actually used ========= *)
+(* the loop's local collision_resolve_keep_sorted is forced to 1 for MERCURIUS/TRACE because reb_simulation_remove_particle forces
+   sorted removal there; resolve_loop_k with hyb = true and keep = false is the loop WITHOUT that forcing (unsorted renumbering of
+   the pending entries, sorted removal): the second pending pair (2,3) = ids (1002,1003) is then handed over as (1003,1004) *)
+Theorem C13_hybrid_renumbering_refuted :
+  let ids := [1000; 1001; 1002; 1003; 1004]%Z in
+  let pend := [(1, 0, 13); (2, 3, 13)]%Z in
+  let run k := let '(_, _, _, log) := resolve_loop_k (fun p : idp => fst p) (fun p : idp => (fst p, true)) res_outs false true k
+                                        (fun e => e) (-1)%Z [1; 2]%Z (map (fun i => (i, false)) ids) pend in map ev_id log in
+  run true = [(1001, 1000, 13, 1); (1002, 1003, 13, 2)]%Z /\ run false = [(1001, 1000, 13, 1); (1003, 1004, 13, 2)]%Z.
+Proof. exact hybrid_renumbering. Qed.
